@@ -25,7 +25,7 @@ RULE = ("one case = (parser, accepted configuration, variant): parser = 1-5 leav
         "characters, NEL/DEL/C1) and random strings over a numeric-looking alphabet, also as dict keys; variant = "
         "dump(yaml|json|json_indented, skip_none=False)[+skip_default], --print_config[=skip_default|comments] re-fed through "
         "--cfg, save()[default skip_none | skip_none=False] + parse_path; quick: systematic single-leaf sweep of the pool over "
-        "every str-admitting type and format + 900 random cases, thorough: + 13500; non-trivial = the configuration was "
+        "every str-admitting type and format + 900 random cases, thorough: + 9000; non-trivial = the configuration was "
         "accepted and has a non-None leaf; distinct = distinct (declaration, configuration, variant)")
 TRUSTED = [
     "Coq 8.16.1 kernel + vm_compute",
@@ -317,6 +317,8 @@ def random_case(rng):
         t = gen_type(rng)
         r = rng.random()
         d = None if r < 0.3 else gen_value(rng, t)
+        if '"nan"' in json.dumps(d):      # `==` on containers holding the very same nan object is identity-based
+            d = None
         r2 = rng.random()
         if r2 < 0.12:
             v = ABSENT
@@ -400,7 +402,7 @@ def sweep_cases(rng, tier):
 
 def generate(rng, tier):
     cases = sweep_cases(rng, tier)
-    for _ in range(900 if tier == "quick" else 13500):
+    for _ in range(900 if tier == "quick" else 9000):
         cases.append(random_case(rng))
     return cases
 
